@@ -116,9 +116,10 @@ def s1_bounds():
 
 def s1_attr_split():
     """several attributes: merged when adjacent with equal bounds, separate otherwise"""
-    g2 = generics([tparam('T'), tparam('U')])
-    f = named(2, [['T'], ['U']])
-    vs = [variant('A', 'Unnamed', unnamed(1, [['T']])), variant('B', 'Named', named(1, [['U']])), variant('C')]
+    # a third parameter that no list mentions: otherwise a list naming every parameter is what std's derive does (rejected: use_case)
+    g2 = generics([tparam('T'), tparam('U'), tparam('V')])
+    f = named(3, [['T'], ['U'], ['V']])
+    vs = [variant('A', 'Unnamed', unnamed(1, [['T']])), variant('B', 'Named', named(2, [['U'], ['V']])), variant('C')]
     combos = [
         ('adj_same', [dw(['Clone'], ['T']), dw(['Copy'], ['T'])]),
         ('adj_same3', [dw(['Clone'], ['T']), dw(['Copy'], ['T']), dw(['Debug'], ['T'])]),
